@@ -98,8 +98,8 @@ def list_task(t):
 
 
 def run(tier, seed):
-    maxlines = 2 if tier == "quick" else 3
-    maxn = 2 if tier == "quick" else 3
+    maxlines = 3 if tier == "quick" else 4
+    maxn = 3 if tier == "quick" else 4
     nb = len(W.bodies(maxlines))
     step = max(1, nb // 16 + 1)
     bt = [(lo, lo + step, maxlines) for lo in range(0, nb, step)]
